@@ -115,7 +115,7 @@ package roaring
 // fragment contracts speak about is redefined at return as old set + {a[0]} and shown
 // to stay the set the containers hold (coupled); this is where the fragment layer's
 // view of a bitmap is tied to the verified container layer.
-//@ contract (*Bitmap).Add props C01,C02,C07,C10,C12,C13,C28
+//@ contract (*Bitmap).Add props C01,C02,C07,C10,C12,C28
 //@   requires bmWF(b) && bmSep(b) && coupled(b) && len(a) == 1 && u64(a[0])
 //@   requires cm(b, a[0] / 65536) != nil ==> roomOK(cm(b, a[0] / 65536))
 //@   requires forall k :: cm(b, k) != nil ==> cm(b, k).$bm.ref != a.ref
